@@ -172,6 +172,30 @@ def check(run: Run) -> None:
             n_oracle += 1
             run.report("C17/construction-default", {"definition": "fixed default-construction histories (vf/props/_family.py)", "ops": [{"op": "history", **prob}]})
 
+    # members of an ANONYMOUS nested structure / union are fields of the enclosing type: they take part in ==, hash and bool
+    ANON = [("struct main { struct { uint8 x; uint8 y; }; uint8 z; };", 3), ("struct main { uint8 k; union { uint16 w; uint8 lo; }; };", 3),
+            ("struct main { struct { uint8 x; struct { uint8 deep; }; }; uint16 z; };", 4)]
+    for text, size in ANON:
+        for compiled in (False, True):
+            cs_a = structs.load(text, compiled=compiled)
+            T = cs_a.resolve("main")
+            for i in range(size):
+                n_oracle += 1
+                base, other = bytes(size), bytes(1 if j == i else 0 for j in range(size))
+                a, b, a2 = T(base), T(other), T(base)
+                probs = []
+                if a == b or not (a != b):
+                    probs.append(f"instances parsed from {base.hex()} and {other.hex()} compare equal")
+                if not (a == a2 and hash(a) == hash(a2)):
+                    probs.append("equal instances are unequal or hash differently")
+                if bool(b) is not True or bool(a) is not False:
+                    probs.append(f"bool of {other.hex()} is {bool(b)}, of {base.hex()} is {bool(a)}")
+                if probs:
+                    failures += 1
+                    run.report("C17/anonymous-member-fields", {"definition": text, "load_kwargs": {"compiled": compiled, "align": False},
+                               "ops": [{"op": "== / hash / bool", "observed": probs, "expected": "every byte of the structure belongs to a field that takes part"}]})
+                    break
+
     F.obligation_fallback(run, ok, bool(failures or mism))
     F.finish_cov(run, items, mism,
                  "part 1: per round 6 structure classes with the SAME field count in one cstruct object (names permuted, reversed, keyword-like, identical shapes in two classes): "
